@@ -2065,13 +2065,17 @@ class TargetRegistry:
 
     def _get_closest_type(self, obj, type_tree):
         default = None
+        mro = type(obj).__mro__
         for cur_type, sub_tree in type_tree.items():
             if isinstance(obj, cur_type):
                 sub_type = self._get_closest_type(obj, type_tree=sub_tree)
                 ret = cur_type if sub_type is None else sub_type
                 # a type with several registered bases sits under only one of them:
-                # keep looking, a more specific match may be under a later sibling
-                if default is None or issubclass(ret, default):
+                # keep looking, a more specific match may be under a later sibling;
+                # an actual base class of the object beats a duck type (one that
+                # matches by __instancecheck__ / __subclasshook__ only)
+                if (default is None or issubclass(ret, default)
+                        or (ret in mro and default not in mro)):
                     default = ret
         return default
 
